@@ -118,6 +118,10 @@ class R:
 def _run_shard(job):
     modname, label, fname, args = job
     t0 = time.time()
+    trace = os.environ.get('VERIF_TRACE')
+    if trace:
+        sys.stderr.write('TRACE start %s\n' % label)
+        sys.stderr.flush()
     try:
         mod = importlib.import_module(modname)
         r = R(label)
@@ -145,6 +149,11 @@ def _run_shard(job):
     except BaseException:  # harness failure, not a property violation
         out = {'label': label, 'harness_error': traceback.format_exc()}
     out['wall'] = time.time() - t0
+    if trace:
+        import resource
+        sys.stderr.write('TRACE end   %s %.1fs maxrss=%dMB\n' % (
+            label, out['wall'], resource.getrusage(resource.RUSAGE_SELF).ru_maxrss // 1024))
+        sys.stderr.flush()
     return out
 
 
